@@ -62,6 +62,16 @@ func Search(hash string, fixed string, keyLen int, seed uint64, hexDigits, want,
 	if maxCand > tabSize/2 {
 		maxCand = tabSize / 2
 	}
+	if maxCand < 16 {
+		maxCand = 16
+	}
+	// use only as much of the table as the budget needs (load <= 1/2): small
+	// searches then stay inside the CPU caches
+	bits := uint(5)
+	for 1<<bits < 2*maxCand {
+		bits++
+	}
+	mask := uint64(1)<<bits - 1
 	tabMu.Lock()
 	defer tabMu.Unlock()
 	tabGen++
@@ -91,11 +101,14 @@ func Search(hash string, fixed string, keyLen int, seed uint64, hexDigits, want,
 		return buf
 	}
 	key := func(i int32) string { return string(gen(i)[len(hash):]) }
-	collect := func(e *tabEnt, tried int) Result {
+	// buckets with two or more members (rare: that is what is being looked for)
+	multi := map[uint64][]int32{}
+	collect := func(members []int32, tried int) Result {
 		r := Result{Tried: tried}
-		for k := int32(0); k < e.n && k < 3; k++ {
-			r.Keys = append(r.Keys, key(e.idx[k]))
-			r.Weights = append(r.Weights, Weight(hash, r.Keys[k]))
+		for _, i := range members {
+			k := key(i)
+			r.Keys = append(r.Keys, k)
+			r.Weights = append(r.Weights, Weight(hash, k))
 		}
 		return r
 	}
@@ -103,7 +116,7 @@ func Search(hash string, fixed string, keyLen int, seed uint64, hexDigits, want,
 	if keyLen < 4 && pow36(keyLen) < limit {
 		limit = pow36(keyLen) * 8 // short keys repeat; do not spin for ever
 	}
-	var best *tabEnt
+	var best []int32
 	for i := int32(0); int(i) < limit; i++ {
 		sum := md5.Sum(gen(i))
 		var b uint64
@@ -111,37 +124,49 @@ func Search(hash string, fixed string, keyLen int, seed uint64, hexDigits, want,
 			b = b<<8 | uint64(sum[j])
 		}
 		b >>= uint(64 - 4*hexDigits)
-		slot := (b * 0x9e3779b97f4a7c15) >> (64 - tabBits)
+		slot := (b * 0x9e3779b97f4a7c15) >> (64 - bits)
 		var e *tabEnt
+		fresh := false
 		for {
 			e = &tab[slot]
 			if e.gen != tabGen {
-				*e = tabEnt{gen: tabGen, b: b}
+				*e = tabEnt{gen: tabGen, idx: i, b: b}
+				fresh = true
 				break
 			}
 			if e.b == b {
 				break
 			}
-			slot = (slot + 1) & (tabSize - 1)
+			slot = (slot + 1) & mask
+		}
+		if fresh {
+			if best == nil {
+				best = []int32{i}
+			}
+			continue
+		}
+		members := multi[b]
+		if members == nil {
+			members = []int32{e.idx}
 		}
 		// a repeated key (short keys) or an identical full weight would make
 		// the order undefined: not a new member
 		dup := false
-		for k := int32(0); k < e.n; k++ {
-			if Weight(hash, key(e.idx[k])) == hex.EncodeToString(sum[:]) {
+		for _, m := range members {
+			if Weight(hash, key(m)) == hex.EncodeToString(sum[:]) {
 				dup = true
 			}
 		}
 		if dup {
 			continue
 		}
-		e.idx[e.n] = i
-		e.n++
-		if best == nil || e.n > best.n {
-			best = e
+		members = append(members, i)
+		multi[b] = members
+		if len(members) > len(best) {
+			best = members
 		}
-		if int(e.n) >= want {
-			return collect(e, int(i)+1)
+		if len(members) >= want {
+			return collect(members, int(i)+1)
 		}
 	}
 	if best == nil {
@@ -156,10 +181,9 @@ const (
 )
 
 type tabEnt struct {
-	gen uint32
-	n   int32
-	idx [3]int32
-	b   uint64
+	gen uint32 // search that wrote the entry (stale entries count as empty)
+	idx int32  // first candidate with this prefix
+	b   uint64 // the prefix
 }
 
 var (
@@ -183,9 +207,21 @@ func pow36(n int) int {
 // and, unchanged, as a 15-character UUID of the "other length" class. Users must
 // call Verify (the harnesses do, and fail VERIF-INFRA otherwise).
 type PinnedPair struct {
-	Hash string
-	Hex  int // the two weights agree in at least this many leading hex digits
+	Hash string // = MD5(Preimage): a block with this content has this hash (write path)
+	Hex  int    // the two weights agree in at least this many leading hex digits
 	A, B string
+}
+
+// PinnedPreimage returns the 64-byte block content whose MD5 is the pinned hash
+// (the upstream test vectors are md5 of fmt.Sprintf("%064x", k)).
+func PinnedPreimage(hash string) (string, bool) {
+	for k := 0; k < 4; k++ {
+		pre := fmt.Sprintf("%064x", k)
+		if Weight("", pre) == hash {
+			return pre, true
+		}
+	}
+	return "", false
 }
 
 var Pinned = []PinnedPair{
